@@ -476,6 +476,7 @@ structure Accepted (buf : Bytes) (e : Ext) : Prop where
   resp : e.resp = extName ++ renderItems e.items
   legal : ∀ it ∈ e.items, Legal buf e.offers it
   once : ∀ n, (names e.items).count n ≤ 1
+  smwOk : e.smw ≠ smwUnsupported
 
 theorem finCmw_inv (buf : Bytes) (e : Ext) (fl : Flags) (hP : PInv buf e fl) :
     PInv buf (finCmw e fl) fl ∧ (finCmw e fl).elemStart = e.elemStart := by
@@ -532,11 +533,15 @@ theorem finAccept_accepted (buf : Bytes) (e : Ext) (fl : Flags) (hP : PInv buf e
       { hw := ?_, len := ?_
         rng := ⟨hP.rng.1, hP.rng.2.1, by show 8 ≤ smwReplacement; decide, by show smwReplacement ≤ 15; decide⟩
         resp := hP.resp
-        legal := hP.legal, once := hP.once }, rfl, rfl⟩
+        legal := hP.legal, once := hP.once, smwOk := by show smwReplacement ≠ smwUnsupported; decide }, rfl, rfl⟩
     · show max e.hiWater (e.resp.length + 1) ≤ responseMax; omega
     · show e.resp.length + 1 ≤ responseMax; omega
-  · refine ⟨
-      { hw := ?_, len := ?_, rng := hP.rng, resp := hP.resp, legal := hP.legal, once := hP.once }, rfl, rfl⟩
+  · rename_i hne
+    refine ⟨
+      { hw := ?_, len := ?_, rng := hP.rng, resp := hP.resp, legal := hP.legal, once := hP.once
+        smwOk := by
+          show e.smw ≠ smwUnsupported
+          intro h; exact hne (by simp [h]) }, rfl, rfl⟩
     · show max e.hiWater (e.resp.length + 1) ≤ responseMax; omega
     · show e.resp.length + 1 ≤ responseMax; omega
 
